@@ -70,6 +70,15 @@ CLAIMED = {
              "returned series with the loop's lists are proved for symbolic N, area, step, feed and every permeate mode / programme / curve-set shape / initial permeances.",
         note=TB + "solver, permeance, fit and programme calls by contract; induction principle for append-only loops trusted (frame checked syntactically); rounding outside the model",
         technique="contracts + loop recurrence extracted from the real body (generic iteration) + induction; z3"),
+    'C03': dict(
+        level='proof', ref='DESIGN.md 3/C03',
+        text="From the recurrence of each process function (generic step k): evaporation heat = sum of permeated mass x each component's own latent heat per kg at T_k "
+             "(real get_vaporisation_heat executed), self-cooling step, programme evaluated at (k+1)*dt, isothermal constancy, condensation heat reported iff a permeate "
+             "temperature is given and equal to the component-symmetric formula; step-0 lemma: isothermal and non-isothermal models give identical fluxes and heats "
+             "(terms compared after substituting k=0 and the prefix values); TemperatureProgram.program against its three closed forms.",
+        note=TB + "callees by contract as in C01; programme closed forms proved for coefficient lists up to length 4 (quick) / 6 (thorough) - bounded part; "
+                  "three defects of the isothermal models were repaired (fix commits 049e8e4, b53bf42, 77ae1e5)",
+        technique="contracts + loop recurrence from the real body + lemmas over the step spec; ring normal form / z3"),
 }
 
 NOT_YET = "check under construction (see DESIGN.md section 7); not claimed until every obligation is in place"
